@@ -380,6 +380,10 @@ func (h *Hub) Unregister(client *Client) error {
 		select {
 		case <-h.ctx.Done():
 			return ErrWebsocketServerUnavailable
+		case <-client.ExitSignal:
+			// the hub is already removing the client: it waits for the pumps of the client to finish, which are the
+			// callers that would otherwise block here if the unregister channel is full
+			return nil
 		case h.unregister <- client:
 			return nil
 		}
